@@ -1,4 +1,5 @@
 import PgBifrost.Proofs.BatcherFaithful
+import PgBifrost.Gen.StdoutSrc
 import PgBifrost.Gen.TxnsSrc
 import PgBifrost.Proofs.BatcherAccounting
 import PgBifrost.Proofs.BatcherSeenOrder
@@ -425,5 +426,13 @@ theorem update_transactions_as_in_source (txns : List PgBifrost.Batch.TxnCount) 
     have : txns.any (·.key == m.key) = true := by
       rw [List.any_eq_true]; exact ⟨e, List.mem_of_find?_eq_some h, by simpa using List.find?_some h⟩
     simp [this]
+
+/-- The stdout sink's worker as written: every record of the batch, in batch order, goes through `fmt.Printf` with the
+CONSTANT format `"%d: %s\n"` and the worker id and the record's JSON as ARGUMENTS (never as the format), and the batch's
+transactions are handed to the progress tracker after the records were written. -/
+theorem stdout_worker_as_in_source :
+    PgBifrost.Gen.StdoutSrc.steps =
+      ["write fmt.Printf format=\"%d: %s\\n\" args=t.id,string(msg.Json)",
+       "send t.txnsWritten <- genericBatch.GetTransactions()"] := rfl
 
 end PgBifrost.Props.C04
